@@ -1,5 +1,8 @@
 import FitModel.Decode
 import FitProofs.Crc
+import FitProofs.CrcTrack
+import FitProofs.Chain
+import FitModel.Gen.Profile
 /-!
   C04 — corruption is detected: CRC verdicts are sound and agree across entry points.
 
@@ -164,6 +167,85 @@ theorem header_crc_agreement (st : DecSt) (h : Header) (hst : st.crc = 0#16)
 
 /-- non-vacuity: a 14-byte header with a wrong non-zero CRC is rejected by both -/
 example : accepts ({ size := 14, proto := 0x20, profile := 2115, dataSize := 0, dtype := fitTag, crc := 0x1234 } : Header).checkIntegrity = false := by
+  decide +kernel
+
+/-! ### from checksum facts to verdicts of the entry points -/
+
+/-- **Accepted ⇒ residue zero.** Whatever `Decode` or `CheckIntegrity` accepts has a frame
+    (header, data, stored CRC) whose CRC-16 is zero. -/
+theorem accepted_residue_zero (P : Profile) (o : Opts) (m : Mode) (hm : m = .full ∨ m = .crcOnly)
+    (g : Globals) (data : Bytes) (stop : Stop) (h : (decodeSpec P o m g data stop).1.success) :
+    checksum (data.take (frameLen data)) = 0#16 :=
+  prog_success_residue P m hm g _ (spec_success_of P o m g data stop h)
+
+/-- **A file that `Decode` accepts passes `CheckIntegrity`.** -/
+theorem accepted_passes_integrity (P : Profile) (o o' : Opts) (g : Globals) (data : Bytes) (stop : Stop)
+    (h : (decodeSpec P o .full g data stop).1.success) :
+    (decodeSpec P o' .crcOnly g data stop).1.success := by
+  have hs := spec_success_of P o .full g data stop h
+  have hi := full_success_integ_success P g _ hs
+  unfold decodeSpec
+  simp only
+  have fe := finalize_err o' (runSpec (decodeProg P .crcOnly g) { rest := data, stop := stop, taken := 0 }).1
+  unfold Outcome.success at hi ⊢
+  rw [fe.1, fe.2.1]
+  exact hi
+
+/-- **Burst ⇒ rejected, by both entry points.** Take any stream `good` that `Decode` or
+    `CheckIntegrity` accepts. Corrupt its frame inside a window of at most 16 consecutive bits
+    (bits in the order the checksum consumes them), leaving the header's size and data-size fields
+    intact (so the declared frame length is unchanged); what follows the frame is arbitrary. Then
+    neither `Decode` nor `CheckIntegrity` accepts the corrupted stream. -/
+theorem burst_rejected (P : Profile) (o o' : Opts) (m m' : Mode) (hm : m = .full ∨ m = .crcOnly)
+    (hm' : m' = .full ∨ m' = .crcOnly) (g g' : Globals) (good bad : Bytes) (stop stop' : Stop)
+    (pre w w' post : List Bool)
+    (hgood : (decodeSpec P o m g good stop).1.success)
+    (hfl : frameLen bad = frameLen good)
+    (hx : bitsOf (good.take (frameLen good)) = pre ++ w ++ post)
+    (hy : bitsOf (bad.take (frameLen good)) = pre ++ w' ++ post)
+    (hlen : w.length = w'.length) (h16 : w.length ≤ 16) (hne : w ≠ w') :
+    ¬ (decodeSpec P o' m' g' bad stop').1.success := by
+  intro hbad
+  have h1 := accepted_residue_zero P o m hm g good stop hgood
+  have h2 := accepted_residue_zero P o' m' hm' g' bad stop' hbad
+  rw [hfl] at h2
+  exact residue_broken _ _ pre w w' post hx hy hlen h16 hne h1 h2
+
+/-- byte form: a corruption confined to two adjacent bytes `w → w'` anywhere in the frame -/
+theorem burst_rejected_bytes (P : Profile) (o o' : Opts) (m m' : Mode) (hm : m = .full ∨ m = .crcOnly)
+    (hm' : m' = .full ∨ m' = .crcOnly) (g g' : Globals) (pre w w' post tail tail' : Bytes) (stop stop' : Stop)
+    (hgood : (decodeSpec P o m g (pre ++ w ++ post ++ tail) stop).1.success)
+    (hframe : (pre ++ w ++ post).length = frameLen (pre ++ w ++ post ++ tail))
+    (hfl : frameLen (pre ++ w' ++ post ++ tail') = frameLen (pre ++ w ++ post ++ tail))
+    (hlen : w.length = w'.length) (h2 : w.length ≤ 2) (hne : w ≠ w') :
+    ¬ (decodeSpec P o' m' g' (pre ++ w' ++ post ++ tail') stop').1.success := by
+  intro hbad
+  have h1 := accepted_residue_zero P o m hm g _ stop hgood
+  have h3 := accepted_residue_zero P o' m' hm' g' _ stop' hbad
+  rw [hfl] at h3
+  rw [← hframe, List.take_left'] at h1
+  have hl' : (pre ++ w' ++ post).length = (pre ++ w ++ post).length := by
+    simp only [List.length_append]; omega
+  rw [← hframe, ← hl', List.take_left'] at h3
+  · exact burst_detected_bytes 0#16 pre w w' post hlen h2 hne (by simp only [checksum] at h1 h3; rw [h1, h3])
+  · rfl
+  · rfl
+
+/-! ### the hypotheses are satisfiable (kernel-evaluated on the regenerated profile) -/
+
+def minFile : Bytes := [12, 32, 67, 8, 11, 0, 0, 0, 46, 70, 73, 84, 64, 0, 0, 0, 0, 1, 0, 1, 0, 0, 4, 34, 103]
+def minFileCorrupt : Bytes := [12, 32, 67, 8, 11, 0, 0, 0, 46, 70, 73, 84, 64, 0, 0, 0, 0, 1, 0, 1, 0, 0, 5, 34, 103]   -- byte 22 (the file type) changed from 4 to 5
+
+set_option maxRecDepth 100000 in
+/-- `minFile` is accepted by both entry points and its residue is zero; the corrupted copy declares
+    the same frame and is rejected by both (as `burst_rejected_bytes` says it must) -/
+example :
+    (decodeSpec Fit.Gen.profile {} .full {} minFile .eof).1.success ∧
+    (decodeSpec Fit.Gen.profile {} .crcOnly {} minFile .eof).1.success ∧
+    checksum (minFile.take (frameLen minFile)) = 0#16 ∧
+    frameLen minFileCorrupt = frameLen minFile ∧
+    ¬ (decodeSpec Fit.Gen.profile {} .full {} minFileCorrupt .eof).1.success ∧
+    ¬ (decodeSpec Fit.Gen.profile {} .crcOnly {} minFileCorrupt .eof).1.success := by
   decide +kernel
 
 end Fit.Props.C04
